@@ -41,7 +41,7 @@ Theorem C02_present_redact_build_verify :
       sd_jwt_parts token = (jwt, L, None) -> jwt_parts_m jwt = Val (s1, cseg, s3) ->
       o_claims O cseg = Ok (blind H enc t) -> o_jwt O jwt = Val (hdr0, blind H enc t) ->
       declared_halg (blind H enc t) = Some alg -> o_hash O alg = H ->
-      jhas "cnf" (blind H enc t) = false ->
+      kb_bound (blind H enc t) = false ->
       NoDup L -> (forall s, In s L -> In (H s) (alldigs H enc t) -> In (H s) (hdigs H enc t)) ->
       decode_all H (o_dec O) L = Ok ds ->
       Forall (fun x => contains tilde x = false) (jwt :: L) ->
@@ -69,7 +69,7 @@ Theorem C02_present_redact_bind_build_verify :
       sd_jwt_parts token = (jwt, L, None) -> jwt_parts_m jwt = Val (s1, cseg, s3) ->
       o_claims O cseg = Ok (blind H enc t) -> o_jwt O jwt = Val (hdr0, blind H enc t) ->
       declared_halg (blind H enc t) = Some alg -> o_hash O alg = H ->
-      jhas "cnf" (blind H enc t) = true -> is_null (jget "cnf" (blind H enc t)) = false ->
+      kb_bound (blind H enc t) = true -> is_null (jget "cnf" (blind H enc t)) = false ->
       jget "kty" (jget "cnf" (blind H enc t)) = JStr "RSA" -> jget "e" (jget "cnf" (blind H enc t)) = JStr e ->
       jget "n" (jget "cnf" (blind H enc t)) = JStr n ->
       NoDup L -> (forall s, In s L -> In (H s) (alldigs H enc t) -> In (H s) (hdigs H enc t)) ->
